@@ -3055,6 +3055,11 @@ def _patch_calls():
                     raise OutOfSubset(f"call `{ast.unparse(node)[:80]}` differs from the form its assumed contract describes: `{spec['expect'][:80]}`")
                 if "args" in spec:
                     def _arg(a):
+                        if a.startswith("$kw:"):    # "$kw:name": the actual keyword argument `name=` of the call (must be there)
+                            kws = [kw.value for kw in node.keywords if kw.arg == a[4:]]
+                            if len(kws) != 1:
+                                raise OutOfSubset(f"call-site spec refers to keyword argument {a[4:]!r}, which the call does not pass")
+                            return kws[0]
                         if a.startswith("$"):       # "$i": the i-th actual positional argument of the call
                             act = node.args[int(a[1:])]
                             if isinstance(act, ast.Starred):
